@@ -38,3 +38,24 @@ def peer_state_types(repo):
               r'^fn if_verifiable_headers_are_same']:
         out.append(s.item(r))
     return out
+
+
+def send_block_arm(repo):
+    """The SendBlock arm of SyncProtocol::received, wrapped as a method (the arm text itself is verbatim)."""
+    import re
+    from extract import Source, Piece, match_brace, ExtractError
+    src = Source(repo, SYNC)
+    m = re.search(r'packed::SyncMessageUnionReader::SendBlock\(reader\) => \{', src.src)
+    if not m:
+        raise ExtractError('SendBlock arm not found in %s' % SYNC)
+    j = src.src.index('{', m.end() - 1)
+    e = match_brace(src.src, j)
+    body = src.src[j:e + 1]
+    p = Piece(src, body, src.src.count('\n', 0, j) + 1, 'SyncProtocol::received / SendBlock arm')
+    p.prefix = "impl SyncProtocol {\n    pub fn send_block_arm(&mut self, nc: Arc<Nc>, peer: PeerIndex, reader: packed::SendBlockReader<'_>) "
+    p.suffix = '\n}'
+    pe = Source(repo, PEERS)
+    ms = [pe.method(r'^impl Peers \{', n) for n in ['add_block', 'add_matched_blocks', 'all_matched_blocks_downloaded', 'clear_matched_blocks']]
+    ms[0].prefix = 'impl Peers {\n'; ms[-1].suffix = '\n}'
+    return [p, pe.item(r'^pub\(crate\) struct BlocksRequest', attrs=True), pe.item(r'^impl BlocksRequest \{'),
+            pe.method(r'^impl Peer \{', 'add_block', wrap='impl Peer')] + ms
